@@ -505,8 +505,6 @@ def gen_samp_script(r, nconf, ndraws, counts, seed):
         ext = extent(sp)
         centre = state_tokens(r, sp, False)
         ncomp = 2 if sp[0] == "se3" else len(sp[1]) if sp[0] == "cmp" else 0
-        if wraps_compound(sp):
-            ncomp = 0
         for kind in ("u", "n", "g"):
             radii = [0.0] if kind == "u" else [0.0, ext * r.unit() * 0.3, ext * r.choice([1.0, 3.0]), ext * r.choice([50.0, 1000.0])]
             subs = [None] * len(radii)
@@ -581,13 +579,13 @@ def gen_subs_op(r, counts):
     while True:
         sp = multibody_space(r) if r.chance(1, 3) else gen_space(r)
         wrapped_top = False
-        if False:                            # wrapped tops crash (finding F168): directed probes only, see wrapped_top_probes
-            sp = ("wrap", sp)
+        if r.chance(1, 6):
+            sp = ("wrap", sp)                # a top-level wrapper around a compound (F168 fixed by /repo 1448c6a2f)
         inner = sp
         while inner[0] == "wrap":
             inner = inner[1]
             wrapped_top = True
-        if sub_components(inner) is None or not sub_components(inner) or wrapped_top or wraps_compound(sp):
+        if sub_components(inner) is None or not sub_components(inner):
             continue
         break
     path = []
@@ -1405,7 +1403,7 @@ def gen_rebound_script(r, nconf, ndraws, counts, seed):
             continue
         kind = r.choice(["u", "n", "g"])
         which = r.choice(["d", "d", "wrapcmp", "vss", "scoped"])
-        if sp[0] == "cmp" and sp[1] and r.chance(1, 3) and not wraps_compound(sp):
+        if sp[0] == "cmp" and sp[1] and r.chance(1, 3):
             which = "sub %d" % r.below(len(sp[1]))
         if which == "scoped":
             kind = "u"
@@ -2133,7 +2131,7 @@ MANIFEST = {
             "CompoundStateSampler's per-component decisions, the Torus / Klein rejection loops and every leaf sampler on its own raw "
             "draws, RNG::uniformInt / halfNormalInt on adversarial mt19937 states (C20's RNG model for the draw), the deterministic "
             "(Halton / precomputed-sequence) samplers; oracle-driven: PrecomputedStateSampler, bounds and weights changed after "
-            "sampler allocation, aliasing (state == near).",
+            "sampler allocation, aliasing (state == near), subspace samplers obtained through wrapper spaces.",
     "note": "Trusted: Lean kernel, the three standard axioms, the hand-written model outside the inputs the correspondence explored, "
             "the harness. Real sampler outputs are sampled, not proved (OMPL's RNG cannot be scripted); the theorems are over real "
             "numbers, IEEE rounding is executed but not verified; states are finite, bounds satisfy lo <= hi, centres are in bounds.",
